@@ -201,6 +201,150 @@ def no_range(ctx):
                                                                           sym_eq(rec["count"], size)])])
     return f, "plain", (None if f is True else {"key": "whole-file-response"})
 
+# ---- conditional requests: the whole FileResponse.prepare decision table --------------------------
+MTIME = 1_700_000_000  # Tue, 14 Nov 2023 22:13:20 GMT
+SIZE = 10
+ETAG = f"{MTIME * 10 ** 9:x}-{SIZE:x}"
+
+
+def _http_date(ts):
+    import email.utils
+
+    return email.utils.formatdate(ts, usegmt=True)
+
+
+ETAG_FORMS = {"absent": None, "any": "*", "match": f'"{ETAG}"', "weak-match": f'W/"{ETAG}"', "other": '"deadbeef-1"',
+              "list-with-match": f'"x", "{ETAG}"'}
+DATE_FORMS = {"absent": None, "earlier": _http_date(MTIME - 10), "equal": _http_date(MTIME), "later": _http_date(MTIME + 10),
+              "garbage": "yesterday"}
+
+
+def conditional(ctx, method="GET"):
+    """If-Match / If-Unmodified-Since / If-None-Match / If-Modified-Since / If-Range + Range against one
+    file (mtime, size and hence ETag fixed): status, validators, Content-Range / Content-Length and the
+    byte slice handed to sendfile follow RFC 9110 13.2.2 (precedence) and 13.1.5 (If-Range)."""
+    import pathlib
+
+    from aiohttp import web, web_fileresponse, web_response
+    from aiohttp.test_utils import make_mocked_request
+
+    from harness.vloop import VLoop, install
+
+    install(VLoop())
+    rec = {}
+
+    async def fake_prepare(self, request):
+        rec["via"] = "prepare"
+        return None
+
+    async def fake_sendfile(self, request, fobj, offset, count):
+        rec["via"] = "sendfile"
+        rec["offset"] = offset
+        rec["count"] = count
+        return None
+
+    class _F:
+        def fileno(self):
+            raise OSError("no descriptor")
+
+        def close(self):
+            rec["closed"] = True
+
+    class _P:
+        suffix = ".bin"
+        name = "f.bin"
+
+        def open(self, mode):
+            return _F()
+
+        def __fspath__(self):
+            return "/nonexistent/f.bin"
+
+    class _S:
+        st_size = SIZE
+        st_mtime = float(MTIME)
+        st_mtime_ns = MTIME * 10 ** 9
+        st_mode = 0o100644
+
+    web_response.StreamResponse.prepare = fake_prepare
+    web_fileresponse.FileResponse._sendfile = fake_sendfile
+    web_fileresponse.FileResponse._get_file_path_stat_encoding = lambda self, ae: (_P(), _S(), None)
+    im = ctx.pick("if_match", sorted(ETAG_FORMS))
+    inm = ctx.pick("if_none_match", sorted(ETAG_FORMS))
+    ius = ctx.pick("if_unmodified_since", sorted(DATE_FORMS))
+    ims = ctx.pick("if_modified_since", sorted(DATE_FORMS))
+    rng = ctx.pick("range", ["absent", "bytes=2-5"])
+    ifr = ctx.pick("if_range", sorted(DATE_FORMS) + ["etag-match", "etag-other"]) if rng != "absent" else "absent"
+    h = {}
+    for name, val in (("If-Match", ETAG_FORMS[im]), ("If-None-Match", ETAG_FORMS[inm]),
+                      ("If-Unmodified-Since", DATE_FORMS[ius]), ("If-Modified-Since", DATE_FORMS[ims]),
+                      ("Range", None if rng == "absent" else rng),
+                      ("If-Range", DATE_FORMS.get(ifr) if ifr in DATE_FORMS else (f'"{ETAG}"' if ifr == "etag-match" else '"deadbeef-1"'))):
+        if val is not None:
+            h[name] = val
+    req = make_mocked_request(method, "/f.bin", headers=h)
+    resp = web.FileResponse(pathlib.Path("/nonexistent/f.bin"))
+    resp._path = _P()
+    _run(resp.prepare(req))
+    status = resp.status
+    got = {"status": status, "via": rec.get("via"), "offset": rec.get("offset"), "count": rec.get("count"),
+           "content_range": resp.headers.get("Content-Range"), "content_length": resp.headers.get("Content-Length"),
+           "etag": resp.headers.get("ETag"), "last_modified": resp.headers.get("Last-Modified")}
+    # ---- RFC 9110 13.2.2
+    strong = {"any": True, "match": True, "list-with-match": True, "weak-match": False, "other": False}
+    weak = dict(strong, **{"weak-match": True})
+    date_valid = lambda f: f in ("earlier", "equal", "later")  # noqa: E731
+    when = {"earlier": MTIME - 10, "equal": MTIME, "later": MTIME + 10}
+    want = None
+    if im != "absent":
+        if not strong[im]:
+            want = 412
+    elif date_valid(ius) and MTIME > when[ius]:
+        want = 412
+    if want is None:
+        if inm != "absent":
+            if weak[inm]:
+                want = 304
+        elif date_valid(ims) and MTIME <= when[ims]:
+            want = 304
+    either = ()
+    if want is None:
+        want = 200
+        if rng != "absent":
+            if ifr in ("absent", "garbage"):
+                want = 206  # no (usable) validator: the Range is honoured
+            elif ifr == "equal" or ifr == "etag-match":
+                want = 206
+            elif ifr == "later":
+                either = (200, 206)  # not an exact match (RFC: ignore Range); the file is unchanged, the slice is right
+            else:
+                want = 200  # changed since / another entity: the Range MUST be ignored
+    info = {"headers": h, "method": method, "got": got, "want": want}
+    if either:
+        if status not in either:
+            info["key"] = f"conditional-status:{status}-instead-of-{either[0]}-or-{either[1]}"
+            return False, "inv:cond", info
+        want = status
+    if status != want:
+        shape = "if-range-etag-ignored" if ifr.startswith("etag") else ("if-range" if want in (200, 206) and status in (200, 206) else "precondition")
+        info["key"] = f"conditional-status:{status}-instead-of-{want}:{shape}"
+        return False, "inv:cond", info
+    bodyless = method == "HEAD"
+    if status == 412:
+        ok = got["via"] == "prepare"
+    elif status == 304:
+        ok = got["via"] == "prepare" and got["etag"] == f'"{ETAG}"' and got["content_range"] is None
+    elif status == 200:
+        ok = got["content_length"] == str(SIZE) and got["content_range"] is None and got["etag"] == f'"{ETAG}"' and \
+            (got["via"] == "prepare" if bodyless else (got["via"] == "sendfile" and (got["offset"], got["count"]) == (0, SIZE)))
+    else:
+        ok = got["content_length"] == "4" and got["content_range"] == f"bytes 2-5/{SIZE}" and \
+            (got["via"] == "prepare" if bodyless else (got["via"] == "sendfile" and (got["offset"], got["count"]) == (2, 4)))
+    if not ok:
+        info["key"] = f"conditional-response-inconsistent:{status}"
+        return False, "inv:cond", info
+    return True, f"cond:{status}", None
+
 
 def twin(ctx):
     f, tag, info = range_arith(ctx, 1, 20)
@@ -222,6 +366,8 @@ def jobs(tier):
         out.append(dict(name="range-3digits", func="range_arith", params=dict(maxdigits=3, size_hi=1500), limits=lim))
     for n in ((1, 2, 3) if quick else (1, 2, 3, 4)):
         out.append(dict(name=f"malformed-{n}", func="malformed", params=dict(n=n), limits=lim))
+    for m in ("GET", "HEAD"):
+        out.append(dict(name=f"conditional-{m}", func="conditional", params=dict(method=m), limits=lim))
     return out
 
 
